@@ -2,7 +2,9 @@ package main
 
 import (
 	"flag"
+	"math/rand"
 	"strconv"
+	"sync"
 	"time"
 
 	"github.com/elastic/go-libaudit/v2/aucoalesce"
@@ -15,6 +17,7 @@ func cacheRunCmd(args []string) int {
 	seed := fs.Int64("seed", 1, "seed")
 	n := fs.Int("n", 100, "traces")
 	length := fs.Int("len", 40, "operations per trace")
+	conc := fs.Int("conc", 40, "rounds of lookups from several goroutines")
 	fs.Parse(args)
 	rng := newRand(*seed, 23)
 	w := newNDWriter(*out)
@@ -69,6 +72,63 @@ func cacheRunCmd(args []string) int {
 			}
 		}
 		stats["traces"]++
+	}
+	// lookups of several goroutines at once (IdCacheConc.tla): entries that do not expire, a store that does not
+	// change and takes its time; every completed lookup is written down with what it returned, whether it was
+	// the one that consulted the store, and what the store holds
+	for round := 0; round < *conc; round++ {
+		trace := *n + 1 + round
+		store := map[string]string{"0": "root", "7": "alice", "8": "", "1000": "bob", "x": "carol"}
+		var mu sync.Mutex
+		consulting := map[int64]bool{}
+		delay := time.Duration(100+rng.Intn(1500)) * time.Microsecond
+		byID := func(k string) string {
+			mu.Lock()
+			consulting[goid()] = true
+			mu.Unlock()
+			time.Sleep(delay)
+			return store[k]
+		}
+		c := aucoalesce.VerifNewEntityCache(time.Hour, byID, func(k string) string { return "" })
+		w.write(map[string]interface{}{"k": "reset", "trace": trace, "expiration": 0, "never": true})
+		keys := []string{"0", "7", "8", "1000", "x", "", "unset", "4294967295"}
+		nkeys := 1 + rng.Intn(len(keys))
+		type done struct {
+			key, ret string
+			called   bool
+		}
+		var recs []done
+		var wg sync.WaitGroup
+		start := make(chan struct{})
+		for g := 2 + rng.Intn(5); g > 0; g-- {
+			wg.Add(1)
+			prng := rand.New(rand.NewSource(rng.Int63()))
+			go func() {
+				defer wg.Done()
+				me := goid()
+				<-start
+				for i := 3 + prng.Intn(6); i > 0; i-- {
+					key := keys[prng.Intn(nkeys)]
+					mu.Lock()
+					consulting[me] = false
+					mu.Unlock()
+					ret := c.LookupID(key)
+					mu.Lock()
+					recs = append(recs, done{key, ret, consulting[me]})
+					mu.Unlock()
+				}
+			}()
+		}
+		close(start)
+		wg.Wait()
+		for _, d := range recs {
+			w.write(map[string]interface{}{"k": "cache", "op": "clookup", "key": d.key, "ret": d.ret, "called": d.called, "store_said": store[d.key], "t0": 0, "t1": 0})
+			stats["concurrent_lookups"]++
+			if d.called {
+				stats["concurrent_store_consulted"]++
+			}
+		}
+		stats["concurrent_rounds"]++
 	}
 	w.close()
 	printJSON(map[string]interface{}{"stats": stats})
